@@ -76,6 +76,8 @@ func (c *Compiler) Reset() {
 	c.labelCounter = 0
 	c.loopStack = nil
 	// Keep the optimizer with its current settings
+	// ... but not what it learned about the variables of the previous body
+	c.optimizer.resetFacts()
 }
 
 // Compile compiles an AST module to bytecode
